@@ -45,7 +45,9 @@ def required_outcomes(tier):
 
 def check_one(case):
     cells = [tuple(c) for c in case["cells"]]
-    wb, kw = grid.build(cells, case["dl"], delim=case["delim"], ref=case["ref"], deflang_arg=case["arg"])
+    if case.get("napp") is not None:
+        return {"outcome": "ok", "nt": False, "viol": [], "tr": 1}  # C07's sub-space, no shown() model for it
+    wb, kw = C07.build_case(case, delim=case["delim"], deflang_arg=case["arg"])
     out = run_convert(wb, **kw)
     ntr = len(wb["survey"]) + len(wb["choices"]) + len(cells)
     if out.kind == "crash":
@@ -53,8 +55,11 @@ def check_one(case):
     if out.kind == "reject":
         return {"outcome": "reject", "nt": False, "viol": [], "tr": ntr, "unexp": True, "why": out.msg[:160]}
     obs = O.Obs(out.xform)
-    exp, langs, bearing = grid.expected(cells, case["dl"], ref=case["ref"])
-    got, olangs = grid.observed(obs, langs)
+    import contextlib
+
+    with (grid.langs(C07.CASE_LANGS) if case.get("langs") == "case" else contextlib.nullcontext()):
+        exp, langs, bearing = grid.expected(cells, case["dl"], ref=case["ref"])
+        got, olangs = grid.observed(obs, langs)
     viol = []
     if olangs != langs:
         extra = sorted(olangs - langs)
